@@ -41,18 +41,28 @@ def _bumped(job):
     old = v2version.format_version(v, pat)
     if not old:
         return None
+    drive._take_events()
     try:
         out = v2version.incr(old, pat, major=f["major"], minor=f["minor"], patch=f["patch"], tag=None if f["tag"] == "none" else f["tag"],
                              tag_num=f["tag_num"], pin_increments=f["pin_increments"], pin_date=f["pin_date"],
                              maybe_date=None if f["pin_date"] else newdate)
     except Exception:  # pylint:disable=broad-except
         return None
+    hooked = [e for e in drive._take_events() if e.get("ev") == "incr.render"]
     if out is None:
         return None
     valid, back, again, exc = _readback(out, pat)
     cal = glue.state(glue.make_vinfo(newdate))
-    return dict(ev="rt2", P=glue.parse_pattern(pat), text=glue.cp(out), valid=valid, back=back, again=again, today=drive.TODAY.toordinal(),
-                dbg="%s %s -> %s" % (pat, old, out), pat=pat, week53=(not f["pin_date"]) and _week53(pat, cal), exc=exc)
+    w53 = (not f["pin_date"]) and _week53(pat, cal)
+    evs = [dict(ev="rt2", P=glue.parse_pattern(pat), text=glue.cp(out), valid=valid, back=back, again=again, today=drive.TODAY.toordinal(),
+                dbg="%s %s -> %s" % (pat, old, out), pat=pat, week53=w53, exc=exc)]
+    if hooked and hooked[-1].get("text") == out:
+        # the STATE the bump reached, recorded by the hook inside incr just before it is rendered: a full rt event (state -> text -> state -> text)
+        vi = hooked[-1]["vinfo"]
+        st = {k: (glue.cp(v) if k == "bid" else (-1 if v is None else v)) for k, v in vi.items() if k not in ("githash", "hexhash")}
+        evs.append(dict(ev="rt", P=glue.parse_pattern(pat), v=st, text=glue.cp(out), valid=valid, back=back, again=again, today=drive.TODAY.toordinal(),
+                        dbg="state reached by bumping %s %s %s -> %s" % (pat, old, {k: v for k, v in f.items() if v and v != "none"}, out), pat=pat, week53=w53, exc=exc))
+    return evs
 
 
 def _chain(job):
@@ -212,7 +222,14 @@ def run(ctx):
         date = rng.choice(special) if rng.random() < 0.5 else corpus.random_date(rng)
         nd = date + dt.timedelta(days=rng.choice([0, 1, 7, 31, 366]))
         bjobs.append((pat, corpus.random_state_kw(rng), date, corpus.random_flags(rng, pat), min(nd, dt.date(2099, 12, 31))))
-    events += [e for e in drive.pmap(_bumped, bjobs, hooks=False, chunksize=500) if e]
+    # "every version state reachable by bumping": every flag set on a final and on a pre-release state of a few core patterns
+    for pat in ("MAJOR.MINOR.PATCH[PYTAGNUM]", "vMAJOR.MINOR.PATCH[-TAG[NUM]]", "YYYY.MM[.INC1]", "vYYYY0M.BUILD[-TAG]", "vYYYY.0W[.INC0][-TAGNUM]"):
+        for kw in (dict(major=1, minor=0, patch=1, bid="1001", tag="final", num=0, inc0=0, inc1=1), dict(major=0, minor=9, patch=9, bid="0999", tag="rc", num=1, inc0=9, inc1=9)):
+            for f in corpus.all_flag_sets(pat):
+                bjobs.append((pat, kw, dt.date(2021, 7, 29), f, dt.date(2021, 7, 29) + dt.timedelta(days=rng.choice([0, 40]))))
+    for evs in drive.pmap(_bumped, bjobs, hooks=True, chunksize=500):
+        events += evs or []
+    ctx.count("bumped_states_recorded_by_the_hook", sum(1 for e in events if e["ev"] == "rt" and e["dbg"].startswith("state reached")))
     ctx.log('bumped done')
     cjobs = []
     from bumpver import v2version
